@@ -258,123 +258,149 @@ theorem C08_cab_wrap_counterexample :
     (c0.run [.act (.free t), .act (.alloc 9)]).wrapped = true := by
   decide
 
-/-! ## Object pool -/
+/-! ## Object pool
 
-theorem pool_step_inv (s : PoolSys) (op : PoolOp) (hi : PInv s) : PInv (s.step op).1 := by
-  cases op with
-  | alloc h v =>
-      simp only [PoolSys.step]
-      split
-      · rename_i hh; exact (alloc_slot_inv s h v hi hh).1
-      · exact hi
-  | free h =>
-      simp only [PoolSys.step]
-      split
-      · rename_i b v hh; exact (free_slot_inv s h b v hi hh).1
-      · exact hi
-  | renew k => exact renew_step_inv s k hi
-  | drop k => exact drop_step_inv s k hi
+Histories are sequences of events `abeg h v … aend` / `fbeg h … fend` (a call of `alloc` / `free`
+begins, the probe's constructor / destructor makes the nested events, the call ends), arbitrarily
+nested — a constructor or destructor may allocate from and free to the SAME pool — plus
+re-creation of the pool between calls.  The theorems hold in EVERY state of such a history,
+including the states in the middle of a call (the model takes the block off the free list before
+the constructor runs and parks it after the destructor has returned, as the code does). -/
 
-theorem pool_run_inv (s : PoolSys) (ops : List PoolOp) (hi : PInv s) : PInv (s.run ops) := by
-  induction ops generalizing s with
-  | nil => exact hi
-  | cons op ops ih => exact ih _ (pool_step_inv s op hi)
-
-/-- **C08_pool_no_alias.** After every history of alloc / free / re-creation with any retention
-limits: the parked chain has no duplicates, the blocks holding live objects are pairwise distinct,
-no parked block holds a live object, no block given back to the system is parked or live; and the
-block the next `alloc` constructs its object in is not in use and was not given back. -/
-theorem C08_pool_no_alias (ops : List PoolOp) (h v : Nat) :
+/-- **C08_pool_no_alias.** In every state: the parked chain has no duplicates; the blocks in use —
+live objects AND objects whose constructor or destructor is still running — are pairwise distinct;
+no parked block is in use; no block given back to the system is parked or in use; and the block in
+which the next `alloc` (nested or not) starts constructing is not in use and was not given back. -/
+theorem C08_pool_no_alias (ops : List PoolOp) (e : PEv) :
     let s := PoolSys.init.run ops
-    s.pool.parked.Nodup ∧ s.liveBlocks.Nodup ∧ (∀ b, b ∈ s.pool.parked → b ∉ s.liveBlocks) ∧
-    (∀ b, b ∈ s.pool.released → b ∉ s.pool.parked ∧ b ∉ s.liveBlocks) ∧
-    ∀ b, (s.step (.alloc h v)).2 = some b → b ∉ s.liveBlocks ∧ b ∉ s.pool.released := by
+    s.pool.parked.Nodup ∧ s.inUse.Nodup ∧ (∀ b, b ∈ s.pool.parked → b ∉ s.inUse) ∧
+    (∀ b, b ∈ s.pool.released → b ∉ s.pool.parked ∧ b ∉ s.inUse) ∧
+    ∀ b, (s.ev e).2 = some b → b ∉ s.inUse ∧ b ∉ s.pool.released := by
   intro s
-  have hi : PI s.pool s.liveBlocks := pool_run_inv _ ops pinit_inv
-  refine ⟨hi.parkedNodup, hi.liveNodup, hi.disjoint, hi.relDisj, ?_⟩
-  intro b hb
-  simp only [PoolSys.step] at hb
-  split at hb
-  · rename_i hh
-    have := alloc_slot_inv s h v hi hh
-    simp at hb; rw [← hb]; exact ⟨this.2.1, this.2.2.1⟩
-  · simp at hb
+  have hi : SInv s := pool_run_inv _ ops pinit_inv
+  exact ⟨hi.pi.parkedNodup, hi.pi.liveNodup, hi.pi.disjoint, hi.pi.relDisj, (ev_inv s e hi).2⟩
 
-/-- **C08_pool_ctor_dtor.** Constructor runs − destructor runs = number of live objects, plus the
-objects that were still constructed when their pool was destroyed (`~ObjectPool()` runs no
-destructor: with the contract "free everything first" that number is 0) after every history; an
-`alloc` that takes place runs exactly one constructor and no destructor, a `free` of a live object
-exactly one destructor and no constructor. -/
-theorem C08_pool_ctor_dtor (ops : List PoolOp) (h v : Nat) :
+theorem ev_leaked (s : PoolSys) (e : PEv) : (s.ev e).1.pool.leaked = s.pool.leaked := by
+  cases e <;> simp only [PoolSys.ev] <;> (repeat' split) <;>
+    simp [Pool.allocA, Pool.ctorEnter, Pool.allocB, Pool.dtorEnter, Pool.freeB] <;> (repeat' split) <;> rfl
+
+/-- **C08_pool_ctor_dtor.** In every state: constructor entries + destructors still running =
+destructor entries + blocks in use + objects abandoned by `~ObjectPool()` (which runs no destructor);
+between calls this is `#ctor − #dtor = #live (+ abandoned)`.  An `alloc` that takes place enters exactly
+one constructor and no destructor; a `free` that takes place enters exactly one destructor and no
+constructor; the end of a call enters neither. -/
+theorem C08_pool_ctor_dtor (ops : List PoolOp) (e : PEv) :
     let s := PoolSys.init.run ops
-    s.pool.ctor = s.pool.dtor + s.liveBlocks.length + s.pool.leaked ∧
-    ((∀ op ∈ ops, ∀ k, op ≠ .drop k) → s.pool.leaked = 0) ∧
-    (s.slots[h]? = some none →
-      (s.step (.alloc h v)).1.pool.ctor = s.pool.ctor + 1 ∧ (s.step (.alloc h v)).1.pool.dtor = s.pool.dtor) ∧
-    (∀ b w, s.slots[h]? = some (some (b, w)) →
-      (s.step (.free h)).1.pool.dtor = s.pool.dtor + 1 ∧ (s.step (.free h)).1.pool.ctor = s.pool.ctor) := by
+    s.pool.ctor + nFree s = s.pool.dtor + s.inUse.length + s.pool.leaked ∧
+    (s.stack = [] → s.pool.ctor = s.pool.dtor + s.liveBlocks.length + s.pool.leaked) ∧
+    (∀ b, (s.ev e).2 = some b → (s.ev e).1.pool.ctor = s.pool.ctor + 1 ∧ (s.ev e).1.pool.dtor = s.pool.dtor) ∧
+    (∀ h b w, e = .fbeg h → s.skip = 0 → s.slots[h]? = some (some (b, w)) →
+      (s.ev e).1.pool.dtor = s.pool.dtor + 1 ∧ (s.ev e).1.pool.ctor = s.pool.ctor) ∧
+    ((e = .aend ∨ e = .fend) → (s.ev e).1.pool.ctor = s.pool.ctor ∧ (s.ev e).1.pool.dtor = s.pool.dtor) := by
   intro s
-  have hi : PI s.pool s.liveBlocks := pool_run_inv _ ops pinit_inv
-  refine ⟨hi.balance, ?_, ?_, ?_⟩
-  · intro hnd
-    have key : ∀ (s0 : PoolSys) (ops : List PoolOp), (∀ op ∈ ops, ∀ k, op ≠ .drop k) → s0.pool.leaked = 0 →
-        (s0.run ops).pool.leaked = 0 := by
-      intro s0 ops
-      induction ops generalizing s0 with
-      | nil => intro _ h0; exact h0
-      | cons op ops ih =>
-          intro hnd h0
-          apply ih _ (fun o ho => hnd o (List.mem_cons_of_mem _ ho))
-          have hfs : ∀ (hs : List Nat) (s1 : PoolSys), s1.pool.leaked = 0 → (s1.freeSlots hs).pool.leaked = 0 := by
-            intro hs
-            induction hs with
-            | nil => intro s1 h1; exact h1
-            | cons a hs ih2 =>
-                intro s1 h1
-                unfold PoolSys.freeSlots
-                split
-                · apply ih2; simp only [Pool.free]; split <;> exact h1
-                · exact ih2 s1 h1
-          cases op with
-          | alloc h v =>
-              simp only [PoolSys.step]; split
-              · simp only [Pool.alloc]; split <;> exact h0
-              · exact h0
-          | free h =>
-              simp only [PoolSys.step]; split
-              · simp only [Pool.free]; split <;> exact h0
-              · exact h0
-          | renew k => simp only [PoolSys.step, Pool.renew]; exact hfs _ s0 h0
-          | drop k => exact absurd rfl (hnd _ List.mem_cons_self k)
-    exact key _ ops hnd rfl
-  · intro hh
-    have := alloc_slot_inv s h v hi hh
-    simp only [PoolSys.step, hh]
-    exact ⟨this.2.2.2.1, this.2.2.2.2⟩
-  · intro b w hh
-    have := free_slot_inv s h b w hi hh
-    simp only [PoolSys.step, hh]
-    exact ⟨this.2.1, this.2.2⟩
+  have hi : SInv s := pool_run_inv _ ops pinit_inv
+  refine ⟨hi.pi.balance, ?_, ?_, ?_, ?_⟩
+  · intro hst
+    have := hi.pi.balance
+    simp only [PoolSys.inUse, nFree, hst, List.map_nil, List.append_nil, List.countP_nil] at this
+    omega
+  · intro b hb
+    cases e with
+    | abeg h v =>
+        have hp : (s.ev (.abeg h v)).1.pool = s.pool.allocA.1.ctorEnter := by
+          simp only [PoolSys.ev] at hb ⊢
+          by_cases hsk : s.skip > 0
+          · simp [hsk] at hb
+          · simp only [hsk, if_false] at hb ⊢
+            cases hslot : s.slots[h]? with
+            | none => simp [hslot] at hb
+            | some o =>
+                cases o with
+                | some x => simp [hslot] at hb
+                | none =>
+                    simp only [hslot] at hb ⊢
+                    by_cases hres : s.reserved h = true
+                    · simp [hres] at hb
+                    · simp [hres]
+        rw [hp]
+        have h1 : s.pool.allocA.1.ctor = s.pool.ctor := by simp only [Pool.allocA]; split <;> rfl
+        have h2 : s.pool.allocA.1.dtor = s.pool.dtor := by simp only [Pool.allocA]; split <;> rfl
+        exact ⟨by simp [Pool.ctorEnter, h1], by simp [Pool.ctorEnter, h2]⟩
+    | aend => simp only [PoolSys.ev] at hb; (repeat' split at hb) <;> simp at hb
+    | fbeg h => simp only [PoolSys.ev] at hb; (repeat' split at hb) <;> simp at hb
+    | fend => simp only [PoolSys.ev] at hb; (repeat' split at hb) <;> simp at hb
+  · intro h b w he hsk hslot
+    subst he
+    simp [PoolSys.ev, hsk, hslot, Pool.dtorEnter]
+  · rintro (he | he) <;> subst he <;> simp only [PoolSys.ev] <;> (repeat' split) <;>
+      simp [Pool.allocB, Pool.freeB] <;> (repeat' split) <;> exact ⟨rfl, rfl⟩
 
-/-- **C08_pool_stat.** The statistics `getStat()` reports are exact after every history:
-`total_alloc_times − total_free_times` is the number of live objects of the current pool,
-`peak_alloc_number` is at least that number and `peak_free_number` at least the number of parked blocks. -/
-theorem C08_pool_stat (ops : List PoolOp) :
-    let s := PoolSys.init.run ops
-    s.pool.stat.allocT = s.pool.stat.freeT + s.liveBlocks.length ∧
-    s.liveBlocks.length ≤ s.pool.stat.peakA ∧ s.pool.parked.length ≤ s.pool.stat.peakF := by
-  intro s
-  have hi : PI s.pool s.liveBlocks := pool_run_inv _ ops pinit_inv
-  exact ⟨hi.statBal, hi.statPeakA, hi.statPeakF⟩
+theorem runEvs_leaked (s : PoolSys) (es : List PEv) : (s.runEvs es).pool.leaked = s.pool.leaked := by
+  induction es generalizing s with
+  | nil => rfl
+  | cons e es ih => simp only [PoolSys.runEvs]; rw [ih, ev_leaked]
 
-/-- **C08_pool_keep.** The number of parked blocks equals `free_number_` and never exceeds the
-retention limit. -/
+/-- with the contract "free every object before the pool dies" (no `drop`) nothing is ever abandoned -/
+theorem C08_pool_no_leak (ops : List PoolOp) (hnd : ∀ op ∈ ops, ∀ k, op ≠ .drop k) :
+    (PoolSys.init.run ops).pool.leaked = 0 := by
+  have key : ∀ (s0 : PoolSys) (ops : List PoolOp), (∀ op ∈ ops, ∀ k, op ≠ .drop k) → s0.pool.leaked = 0 →
+      (s0.run ops).pool.leaked = 0 := by
+    intro s0 ops
+    induction ops generalizing s0 with
+    | nil => intro _ h0; exact h0
+    | cons op ops ih =>
+        intro hnd h0
+        apply ih _ (fun o ho => hnd o (List.mem_cons_of_mem _ ho))
+        have hfs : ∀ (hs : List Nat) (s1 : PoolSys), s1.pool.leaked = 0 → (s1.freeSlots hs).pool.leaked = 0 := by
+          intro hs
+          induction hs with
+          | nil => intro s1 h1; exact h1
+          | cons a hs ih2 =>
+              intro s1 h1
+              unfold PoolSys.freeSlots
+              split
+              · rename_i b0 v0 _
+                apply ih2
+                have : (s1.pool.free b0).leaked = s1.pool.leaked := by
+                  simp only [Pool.free, Pool.freeB, Pool.dtorEnter]
+                  by_cases hk : s1.pool.freeNum < s1.pool.keep <;> simp [hk]
+                simp only; rw [this]; exact h1
+              · exact ih2 s1 h1
+        cases op with
+        | evs l => simp only [PoolSys.step]; rw [runEvs_leaked]; exact h0
+        | renew k =>
+            simp only [PoolSys.step]; split
+            · exact h0
+            · simp only [Pool.renew]; exact hfs _ s0 h0
+        | drop k => exact absurd rfl (hnd _ List.mem_cons_self k)
+  exact key _ ops hnd rfl
+
+/-- **C08_pool_keep.** In every state the number of parked blocks equals `free_number_` and never
+exceeds the retention limit. -/
 theorem C08_pool_keep (ops : List PoolOp) :
     let s := PoolSys.init.run ops
     s.pool.freeNum = s.pool.parked.length ∧ s.pool.parked.length ≤ s.pool.keep := by
   intro s
-  have hi : PI s.pool s.liveBlocks := pool_run_inv _ ops pinit_inv
-  exact ⟨hi.freeNum, hi.keep⟩
+  have hi : SInv s := pool_run_inv _ ops pinit_inv
+  exact ⟨hi.pi.freeNum, hi.pi.keep⟩
+
+/-- **C08_pool_stat.** The statistics `getStat()` reports are exact in every state:
+`total_alloc_times` + allocs in progress = `total_free_times` + blocks in use (between calls:
+`total_alloc_times − total_free_times` = number of live objects of the current pool);
+`peak_alloc_number` (+ allocs in progress) is at least the number of blocks in use and
+`peak_free_number` at least the number of parked blocks. -/
+theorem C08_pool_stat (ops : List PoolOp) :
+    let s := PoolSys.init.run ops
+    s.pool.stat.allocT + nAlloc s = s.pool.stat.freeT + s.inUse.length ∧
+    (s.stack = [] → s.pool.stat.allocT = s.pool.stat.freeT + s.liveBlocks.length ∧ s.liveBlocks.length ≤ s.pool.stat.peakA) ∧
+    s.inUse.length ≤ s.pool.stat.peakA + nAlloc s ∧ s.pool.parked.length ≤ s.pool.stat.peakF := by
+  intro s
+  have hi : SInv s := pool_run_inv _ ops pinit_inv
+  refine ⟨hi.pi.statBal, ?_, hi.pi.statPeakA, hi.pi.statPeakF⟩
+  intro hst
+  have h1 := hi.pi.statBal; have h2 := hi.pi.statPeakA
+  simp only [PoolSys.inUse, nAlloc, hst, List.map_nil, List.append_nil, List.countP_nil] at h1 h2
+  exact ⟨by omega, by omega⟩
 
 /-! ## Fd -/
 
@@ -513,8 +539,13 @@ example :
     c.lookup ⟨1, 0⟩ = none ∧ c.lookup ⟨3, 0⟩ = none ∧ c.lookup ⟨4, 0⟩ = some 4 ∧ c.size = 1 := by decide
 
 example :
-    let s := PoolSys.init.run [.renew 1, .alloc 0 7, .alloc 1 8, .free 0, .free 1, .alloc 2 9]
-    s.slots[2]? = some (some (0, 9)) ∧ s.pool.released = [1] ∧ s.slots[3]? = some none := by decide
+    -- keep 1; park a block; then an object whose constructor allocates a child from the same pool
+    -- and whose destructor frees that child: the child gets a different block than its parent
+    let s := PoolSys.init.run [.renew 1, .evs [.abeg 0 7, .aend, .fbeg 0, .fend],
+                               .evs [.abeg 1 8, .abeg 2 9, .aend, .aend], .evs [.fbeg 1, .fbeg 2, .fend, .fend]]
+    let m := PoolSys.init.run [.renew 1, .evs [.abeg 0 7, .aend, .fbeg 0, .fend], .evs [.abeg 1 8, .abeg 2 9]]
+    m.stack = [.allocF 2 9 1, .allocF 1 8 0] ∧ m.pool.parked = [] ∧
+    s.stack = [] ∧ s.pool.parked = [1] ∧ s.pool.released = [0] ∧ s.pool.ctor = 3 ∧ s.pool.dtor = 3 := by decide
 
 example :
     let c := ({} : Cab).run [.act (.alloc 1), .act (.alloc 2), .act (.alloc 3), .act (.alloc 4), .act (.free ⟨2, 1⟩)]
